@@ -307,6 +307,44 @@ pub(crate) fn run(opts: &Opts, report: &mut Report) {
             }
             k += SLICES as u64;
         }
+        // ---- the same crash points once more, with the last BlockFilters answer of before the
+        // crash arriving a second time right after the restart (its sender proven again, the stored
+        // matched-blocks record not yet recovered into the memory): sync histories
+        if h.name.starts_with("sync") && (thorough || hi < 3) {
+            explore::REPLAY_FILTERS_AFTER_RESTART.store(true, std::sync::atomic::Ordering::SeqCst);
+            let mut k = slice as u64;
+            while k < total {
+                crate::verif::props::shard::journal(&format!("{} crash@{} + repeated BlockFilters after the restart", h.name, k));
+                let (sim, out) = explore::run_with_crash(h.sc.as_ref(), &h.devs, Some(k), false);
+                report.count("crash_points_with_repeated_filters", 1);
+                let mut bad: Vec<(String, String)> = vec![];
+                if let Some(p) = &out.reopen_panic {
+                    bad.push(("store-unusable-after-crash".into(), format!("reopen / start-up panics: {}", p.describe())));
+                } else if let Some(sim) = &sim {
+                    let banned = !sim.bans().is_empty() || !sim.c().out.disconnects().is_empty();
+                    if banned && out.run.panic.is_none() {
+                        // (the repeated answer itself may get its sender banned: then the run
+                        // says nothing about the crash)
+                        report.count("cases_not_judged_honest_peer_banned", 1);
+                        k += SLICES as u64;
+                        continue;
+                    }
+                    let mut judged = c03::judge_run(sim, &out.run, &h.regs, &[]);
+                    judged.retain(|(c, _)| !c.starts_with("uncommitted-record/TxHash") && !c.starts_with("uncommitted-record/BlockHash") && !c.starts_with("uncommitted-record/BlockNumber"));
+                    bad.extend(judged);
+                }
+                for (class, items) in oracle::group(bad) {
+                    let hist_kind = h.name.split('/').next().unwrap_or("").to_owned();
+                    report.violation(
+                        format!("{}/{}/repeated-filters-after-restart", class, hist_kind),
+                        format!("[{}] crash at write {} of {}, the last BlockFilters answer repeated right after the restart: {}", h.name, k, total, items[0]),
+                        json!({"history": h.name, "crash_at_write": k, "total_writes": total, "repeated_block_filters_after_restart": true, "all": items.iter().take(6).collect::<Vec<_>>()}),
+                    );
+                }
+                k += SLICES as u64;
+            }
+            explore::REPLAY_FILTERS_AFTER_RESTART.store(false, std::sync::atomic::Ordering::SeqCst);
+        }
         // ---- thorough: a second crash at every write point of the recovery, for the crash
         // points of this slice of the first two sync histories and the first fork history
         if thorough && (hi < 2 || h.name.starts_with("fork/depth1/growth3/set1")) {
